@@ -14,6 +14,7 @@ import GunYu.Model.Target
 import GunYu.Proofs.SenderCp
 import GunYu.Proofs.MaxOffset
 import GunYu.Proofs.Parser
+import GunYu.Proofs.RunId
 
 namespace GunYu.Props.C07
 open GunYu GunYu.Sender GunYu.Target
@@ -222,6 +223,58 @@ theorem resumed_items_not_below_start (pc : PCfg) (x : Int) (raws : List Raw) (e
     · cases h
   · exact (parseAll_offsets_mono pc raws { lastSent := x } hraw hlo).2 i h
 
+/-! ### A stored offset is never without its run id (D18 as a theorem) -/
+
+/-- **At every crash point, every database that holds a `<rid>_offset` holds the
+    `<rid>_runid` field too**: for every configuration, every schedule whose
+    `select` items are truthful about the database they select (the parser's are:
+    `parser_items_selOK`), and ANY number `k` of requests the target executed,
+    starting from a target on which that already held (e.g. an empty one) and a
+    new connection. So what `GetCheckpoint` finds is always usable: a position is
+    never read back as run id "?" (position lost, full resync). -/
+theorem cp_offset_has_runid (c : SCfg) (evs : List Ev)
+    (hev : ∀ ev ∈ evs, ∀ it, ev = .item it → SelOK it)
+    (t : TState) (hq : t.queued = none) (hcur : t.cur = 0) (h0 : RunIdInv t) (k : Nat) :
+    RunIdInv (applyLog t ((run c initS evs).2.flatten.take k)) := by
+  obtain ⟨E, ⟨R, hER⟩, hsame⟩ := crash_executes_body_prefix (run c initS evs).2
+    (run_wf c initS evs) t hq k
+  have hall := run_coupled c initS evs t ⟨by rw [hcur]; rfl, by intro d hd; simp [initS] at hd, h0⟩
+    (by intro i hi; simp [initS] at hi) hev
+  have hE : E = (bodies (run c initS evs).2).take E.length := by
+    rw [← hER]; simp
+  have := hall E.length
+  rw [← hE] at this
+  intro d o ho
+  rw [hsame.2] at ho ⊢
+  exact this d o ho
+
+/-- the hypothesis above holds for every schedule whose items are the parser's -/
+theorem parser_items_selOK (pc : PCfg) (x : Int) (raws : List Raw) (evs : List Ev)
+    (hitems : itemsOf evs = parserItems pc x raws)
+    (hsel : ∀ r ∈ raws, r.cmd = bSelect → ∀ a n, r.args = [a] → atoi? a = some n → 0 ≤ n) :
+    ∀ ev ∈ evs, ∀ it, ev = .item it → SelOK it := by
+  have hmem : ∀ (evs : List Ev) (it : Item), Ev.item it ∈ evs → it ∈ itemsOf evs := by
+    intro evs it
+    induction evs with
+    | nil => intro h; cases h
+    | cons e rest ih =>
+      intro h
+      rcases List.mem_cons.mp h with rfl | h'
+      · simp [itemsOf]
+      · cases e <;> simp [itemsOf, ih h']
+  intro ev hev it hit
+  subst hit
+  have := hmem evs it hev
+  rw [hitems] at this
+  unfold parserItems at this
+  rcases List.mem_append.mp this with h | h
+  · split at h
+    · simp at h; subst h
+      intro _ cur
+      exact selArg_selectItem cur _ x
+    · cases h
+  · exact parseAll_selOK pc raws _ hsel it h
+
 /-- An idle source (ticks only, in any number and order) stores nothing new
     beyond the position already held, and nothing at all when the run has not
     consumed anything yet — a keep-alive never replaces a good position. -/
@@ -249,8 +302,11 @@ def exEvs : List Ev :=
 example : Mono initS.lastOffset exEvs := by simp [exEvs, Mono, initS]
 example : cpOffsets (run exCfg initS exEvs).2 = [1050, 1050, 1106] := by decide
 example : itemOffsets exEvs = [1023, 1050, 1065, 1092, 1106] := by decide
--- two lives: the first dies after 7 requests (inside the second block), the second resumes at 1050
 def exT0 : TState := {}
+-- D18: after 7 requests (inside the second block) db 1 holds offset 1050 together with the run id
+example : getCp (applyLog exT0 ((run exCfg initS exEvs).2.flatten.take 7)).cps 1 =
+    { offset := some 1050, hasRunId := true } := by decide +kernel
+-- two lives: the first dies after 7 requests (inside the second block), the second resumes at 1050
 example : maxOffset (nextT exCfg exT0 exEvs 7).cps = 1050 := by decide +kernel
 example : RunsOK exT0 [(exCfg, exEvs, 7),
     (exCfg, [.item { cmd := [115,101,116], args := [[99],[100]], offset := 1092, db := 1 }, .batchTick], 9)] := by
